@@ -103,6 +103,14 @@ def main():
                 out["var%d/%s/vttf-second" % (i, lib)] = sha(ufo2ft.compileVariableTTF(ds))
                 out["var%d/%s/vcff2-after" % (i, lib)] = sha(ufo2ft.compileVariableCFF2(ds))
                 out["var%d/%s/static-after-var" % (i, lib)] = sha(ufo2ft.compileTTF(fonts[0]))
+                # a format-5 document whose variable font carries public.fontInfo overrides, compiled twice, then the default
+                # master compiled on its own
+                r4 = random.Random(seed * 1000 + i)
+                ds4, fonts4, _ = dsgen.family(r4, 2, lib, vf_info=[{"familyName": "Fam VF", "xHeight": 480, "openTypeOS2TypoAscender": 790,
+                                                                    "postscriptUnderlinePosition": -90}])
+                out["var%d/%s/vfinfo" % (i, lib)] = sha(ufo2ft.compileVariableTTFs(ds4)["VF0"])
+                out["var%d/%s/vfinfo-second" % (i, lib)] = sha(ufo2ft.compileVariableTTFs(ds4)["VF0"])
+                out["var%d/%s/static-after-vfinfo" % (i, lib)] = sha(ufo2ft.compileTTF(fonts4[0]))
                 r3 = random.Random(seed * 1000 + i)
                 ds2, fonts2, _ = dsgen.family(r3, 2, lib)
                 out["var%d/%s/static-first" % (i, lib)] = sha(ufo2ft.compileTTF(fonts2[0]))
